@@ -539,7 +539,7 @@ func init() {
 		Level:       "other",
 		Explanation: "Structural necessary conditions, on all paths: the contents of a pool-backed file change only under the lock obtained through lockMutatingData (which waits for uploads) and the cached digest is invalidated after every successful change; digests are only cached from frozen readers; one guarded close site of the backing file; reference-adding operations refuse a zero count (no resurrection), Unlink is forwarded only at zero; frozen readers are closed once or handed to a buffer. Lifetime over all histories and digest equality with the stored bytes are not decided.",
 		Assumptions: []string{"buffers built from a reader close it exactly once (bb-storage contract)"},
-		Rules:       []RuleFunc{c16MutatingLock, c16Lifetime, c16Frozen, c16LinkForwarding, c13LinkBalance, c16FrozenRules},
+		Rules:       []RuleFunc{c16MutatingLock, c16Lifetime, c16Frozen, c16LinkForwarding, c13LinkBalance, c16FrozenRules, c16CloseReleasesCount},
 	})
 }
 
